@@ -1026,6 +1026,15 @@ class Interp:
                 i = b.find(xb) if m == "find" else b.rfind(xb)
                 return Enum("Option", "Some", {"0": i}) if i >= 0 else Enum("Option", "None")
             return {"starts_with": b.startswith(xb), "ends_with": b.endswith(xb), "contains": xb in b}[m]
+        if gen == "core::str::<impl str>::chars":
+            v = self.ev(args[0], env, depth)
+            if isinstance(v, Ref):
+                v = v.get()
+            if isinstance(v, Enum) and v.adt == "Located" and isinstance(v.fields.get("node"), str):
+                v = v.fields["node"]        # Located<String> derefs to its node
+            if isinstance(v, str):
+                return list(v)
+            raise Unknown("chars of %r" % (v,))
         if gen in ("alloc::string::String::len", "core::str::<impl str>::len"):
             v = self.ev(args[0], env, depth)
             if isinstance(v, str):
